@@ -171,6 +171,22 @@ class Prop(BaseProp):
             if gots != ms:
                 return Verdict('diverge', dict(case, texts=[ta, tb]), 'is_equivalent / contains on strings', impl=gots, model=ms, tags=tags)
             tags.append('strings=%s' % ('raises' if 'raises' in gots else 'blank' if not (ta.strip() and tb.strip()) else 'answered'))
+            # parse options given to the comparison are the options both sides are parsed with: the answer on the two strings
+            # under simple=True / strict=True is the answer on the objects parse() returns under the same options (an alias
+            # of the table is an unknown license to the simple tokenizer), in either argument order
+            for kw in ({'simple': True}, {'strict': True}):
+                pa, pb = impl.outcome(lambda: l1.parse(ta, **kw)), impl.outcome(lambda: l1.parse(tb, **kw))
+                for x, y, px, py in ((ta, tb, pa, pb), (tb, ta, pb, pa)):
+                    if P.is_ok(px) and P.is_ok(py):
+                        wanted = [ask(lambda: l1.is_equivalent(px[1], py[1])), ask(lambda: l1.contains(px[1], py[1]))]
+                    elif P.err_class(px) in ('exprerr', 'parseerr') or P.err_class(py) in ('exprerr', 'parseerr'):
+                        wanted = ['raises', 'raises']
+                    else:
+                        continue
+                    under = [ask(lambda: l1.is_equivalent(x, y, **kw)), ask(lambda: l1.contains(x, y, **kw))]
+                    if under != wanted:
+                        return Verdict('spec', dict(case, texts=[x, y], options=kw), 'is_equivalent / contains on strings under parse options differ from the answers on the objects parsed under the same options',
+                                       impl=under, model=wanted, tags=tags)
         if bool(meq) != eq:
             return Verdict('diverge', case, 'is_equivalent', impl=eq, model=meq, tags=tags)
         if bool(mct) != ct:
